@@ -19,9 +19,12 @@ ENV_NAMES = ["PYFLYBY_PATH", "PYFLYBY_KNOWN_IMPORTS_PATH", "PYFLYBY_MANDATORY_IM
 # world materialisation
 # =============================================================================================
 def build_tree(R, node, rel=""):
-    """Create the abstract tree under the real directory R."""
+    """Create the abstract tree under the real directory R.  A node with "ln" is a symbolic link to that
+    abstract path (its other fields are a copy of the target, which is what the model and the oracle see)."""
     path = R + rel
-    if "ch" in node:
+    if "ln" in node:
+        os.symlink(R + node["ln"], path)
+    elif "ch" in node:
         os.makedirs(path, exist_ok=True)
         for nm, ch in node["ch"]:
             build_tree(R, ch, rel + "/" + nm)
@@ -31,9 +34,11 @@ def build_tree(R, node, rel=""):
 
 
 def tree_index(node, rel="", out=None):
-    """abstract path -> node, for every node ("/" is the root)."""
+    """abstract path -> node, for every node ("/" is the root); dangling links are nothing."""
     if out is None:
         out = {}
+    if node.get("broken"):
+        return out
     out[rel or "/"] = node
     if "ch" in node:
         for nm, ch in node["ch"]:
@@ -230,12 +235,14 @@ def _first_dir(p):
 
 
 def ref_walk(top):
-    """Recursive *.py below a directory, sorted, hidden entries and __pycache__ skipped (os.walk)."""
+    """Every regular file *.py below a directory: every sub-directory is descended whatever its name, except
+    hidden ones and __pycache__ (os.walk; symbolic links to files/directories count as what they point to)."""
     out = []
-    for dirpath, dirnames, filenames in os.walk(top):
+    for dirpath, dirnames, filenames in os.walk(top, followlinks=True):
         dirnames[:] = [d for d in dirnames if not d.startswith(".") and d != "__pycache__" and _safe_path(d)]
         for f in filenames:
-            if f.endswith(".py") and not f.startswith(".") and _safe_path(f) and f != "__pycache__":
+            if (f.endswith(".py") and not f.startswith(".") and _safe_path(f)
+                    and os.path.isfile(os.path.join(dirpath, f))):
                 out.append(os.path.join(dirpath, f))
     # order: depth-first, entries of one directory in name order, a sub-directory expands in place
     def key(p):
@@ -370,6 +377,8 @@ class C12(Prop):
         "Pfb.C12.C12_path",
         "Pfb.C12.C12_push_order",
         "Pfb.C12.C12_path_files",
+        "Pfb.C12.C12_path_visible",
+        "Pfb.C12.C12_path_descends_any_dir",
         "Pfb.C12.C12_path_explicit_kept",
         "Pfb.C12.C12_path_skips",
         "Pfb.C12.C12_union",
@@ -412,7 +421,7 @@ class C12(Prop):
             "ancestor levels, nested *.py directories with hidden entries, __pycache__, non-.py and unsafe names, simulated "
             "partitions, database files with known/mandatory/canonical/forget statements in random order and spelling; "
             "6 lookup histories (length <= 4) per world over a small target x env alphabet, plus (exhaustive) every history "
-            "up to length 2 (quick) / 3, every tenth world 4 (thorough) over a <=4 x <=3 alphabet; a case is non-trivial when some lookup loads "
+            "up to length 2 over a 3 x 2 alphabet (quick) / 3, every tenth world 4, over a 4 x 3 alphabet (thorough); a case is non-trivial when some lookup loads "
             ">= 2 files and some history has a cache hit")
     trusted_base = ["the rendering of abstract imports to Python text and its inverse (CPython import syntax)",
                     "`_get_st_dev`, `_find_etc_dirs`, $HOME and the cwd are set by the harness (simulated partitions)",
@@ -448,7 +457,8 @@ class C12(Prop):
         L = self.EXH_QUICK_LEN
         if tier == "thorough":
             L = 4 if i % self.EXH_THOROUGH_LEN4_EVERY == 0 else self.EXH_THOROUGH_LEN
-        case["exh"] = {"targets": targets[:4], "envs": [json.loads(e) for e in envs[:3]], "len": L}
+        nt, ne = (4, 3) if tier == "thorough" else (3, 2)      # quick: 6 + 36 lookups per world
+        case["exh"] = {"targets": targets[:nt], "envs": [json.loads(e) for e in envs[:ne]], "len": L}
         case["subproc"] = (i % (10 if tier == "thorough" else 25) == 0)
         return case
 
@@ -710,7 +720,7 @@ class C12(Prop):
     @staticmethod
     def _strip(node):
         if "ch" in node:
-            return {"dev": node["dev"], "ch": [[nm, C12._strip(ch)] for nm, ch in node["ch"]]}
+            return {"dev": node["dev"], "ch": [[nm, C12._strip(ch)] for nm, ch in node["ch"] if not ch.get("broken")]}
         return {"stmts": node["stmts"], "syn": bool(node.get("syn"))}
 
     def model_requests(self, case, obs):
@@ -794,6 +804,25 @@ class C12(Prop):
                     inc("query_with_forget")
                 if any(not v for _, v in fr["db"]["bfi"]):
                     inc("query_with_empty_lookup_entry")
+        links = {p for p, n in tree_index(case["tree"]).items() if "ln" in n}
+        seen = set()
+        for fr in obs["fresh"].values():
+            for f in fr["files"] or []:
+                if f in seen:
+                    continue
+                seen.add(f)
+                comps = f.split("/")[1:]
+                inc("loaded_files")
+                if any("." in c[1:] for c in comps[:-1]):
+                    inc("loaded_files_below_a_dotted_directory")
+                if any(c.endswith(".py") for c in comps[:-1]):
+                    inc("loaded_files_below_a_directory_named_x.py")
+                if comps[-1].count(".") >= 2:
+                    inc("loaded_files_with_two_dots_in_the_name")
+                if any("/" + "/".join(comps[:i]) in links for i in range(1, len(comps) + 1)):
+                    inc("loaded_files_through_a_symlink")
+                if len(comps) >= 6:
+                    inc("loaded_files_at_depth_6_or_more")
         for steps in obs["hist"]:
             inc("histories")
             inc("history_len_%d" % len(steps))
